@@ -72,7 +72,9 @@ class Prop(PropBase):
                     yield {"op": "call", "ufunc": name, "method": "__call__", "cls": cls, "arr": arrange, "out": out,
                            "dtype": rng.choice(["f8", "f4", "i8"] if REQ[cls] is None else
                                                (["f8", "f4"] if REQ[cls][0] == "float64" else ["c16", "c8"])),
-                           "dask": dask, "where": rng.random() < 0.35}
+                           "dask": dask, "where": rng.random() < 0.35,
+                           # the Quantity operand: physical unit, or a *scaled* dimensionless one (value != the number it stands for)
+                           "q": rng.choice(["m", "percent", "ratio", "percent_arr", "one"])}
         for m in ("reduce", "accumulate", "reduceat", "outer", "at"):
             for name in ("add", "multiply", "maximum", "logical_and"):
                 for cls in (CLASSES if not quick else rng.sample(CLASSES, 3)):
@@ -196,7 +198,9 @@ class Prop(PropBase):
                 ops.append(2)
                 desc.append("o")
             elif a == "q":
-                ops.append(2.0 * u.m)
+                qk = case.get("q", "m")
+                ops.append({"m": 2.0 * u.m, "percent": 50 * u.percent, "ratio": (3 * u.mV) / (2 * u.V), "one": 2.0 * u.dimensionless_unscaled,
+                            "percent_arr": np.full((4,) + sigs.sample_shape(case["cls"], 2), 30.0) * u.percent}[qk])
                 desc.append("o")
         # mixed classes need equal shapes: only keep when shapes agree
         sigs_in = [o for o in ops if isinstance(o, pb.Signal)]
@@ -311,7 +315,8 @@ class Prop(PropBase):
                 val = np.asarray(yy)
             if method != "at" and k < len(rr) and not isinstance(raw_res, Exception):
                 ref = np.asarray(rr[k])
-                it["values"] = bool(val.shape == ref.shape and np.array_equal(val.astype(np.result_type(val, ref)),
+                unit_of = lambda v: str(v.unit) if isinstance(v, u.Quantity) else None
+                it["values"] = bool(unit_of(getattr(yy, "data", yy)) == unit_of(rr[k]) and val.shape == ref.shape and np.array_equal(val.astype(np.result_type(val, ref)),
                                                                                 ref.astype(np.result_type(val, ref)), equal_nan=True))
             items.append(it)
         res["items"] = items
